@@ -22,6 +22,16 @@ func AnyToInt64(value any) int64 {
 	return value.(int64)
 }
 
+// IsNumber tells whether AnyToInt64 can convert the given value.
+func IsNumber(value any) bool {
+	switch value.(type) {
+	case int, int8, int16, int32, int64, float32, float64:
+		return true
+	}
+
+	return false
+}
+
 func ToPtr[T any](v T) *T {
 	return &v
 }
